@@ -444,6 +444,19 @@ func judgeConc(r *vf.Run, w *world, c *concCase, logs [][]event) {
 	}
 	inFault := func(e event) bool { return fwin != nil && overlaps(e, *fwin) }
 	afterFault := func(e event) bool { return fwin != nil && fwin.call < e.call }
+	// resolvedSinceFault: the key was looked up successfully after the fault window opened and
+	// before t (then a later failure is not explained by an error memoised during the fault)
+	resolvedSinceFault := func(key int, t int64) bool {
+		if fwin == nil || t <= fwin.call {
+			return true // no fault had been injected yet
+		}
+		for _, o := range all {
+			if o.key == key && (o.op == "lookup-diff" || o.op == "lookup-blob") && o.err == "" && o.panicked == "" && o.call > fwin.call && o.ret < t {
+				return true
+			}
+		}
+		return false
+	}
 
 	nontrivial := false
 	var ops []porcupine.Operation
@@ -523,7 +536,7 @@ func judgeConc(r *vf.Run, w *world, c *concCase, logs [][]event) {
 					lastZero = &all[j]
 				}
 			}
-			if lastZero != nil {
+			if lastZero != nil && resolvedSinceFault(e.key, e.call) {
 				for _, o := range all {
 					if c.keys[o.key].imgNo != k.imgNo || o.key == e.key {
 						continue
@@ -601,7 +614,7 @@ func judgeConc(r *vf.Run, w *world, c *concCase, logs [][]event) {
 	}
 	// classification hint: pairs that were released to zero in the concurrent phase
 	for _, e := range all {
-		if e.op == "release" && e.n == 0 {
+		if e.op == "release" && e.n == 0 && resolvedSinceFault(e.key, 1<<62) {
 			s.dropped[e.key] = "image-zero"
 		}
 	}
